@@ -9,7 +9,7 @@ RULE = ("histories over the real provider keeper and 1-3 real consumer keepers: 
         "staking churn (power changes, jailing, leaving/entering the bonded set), opt-in/opt-out, consumer key "
         "assignments, power-shaping updates; relay schedules immediate / delayed k epochs / burst of all pending "
         "packets into one consumer block / channel opened after 1-20 epochs; injected SendPacket faults, expired "
-        "clients, MsgRemoveConsumer.  Non-trivial = some consumer adopted >= 3 distinct sets and some consumer block "
+        "clients, MsgRemoveConsumer, consumer restarts from exported genesis.  Non-trivial = some consumer adopted >= 3 distinct sets and some consumer block "
         "received >= 2 packets; distinct = distinct sequence of adopted sets")
 ASSUMPTIONS = [
     "every set computed by ComputeNextValidators has pairwise distinct consumer keys (C05) and positive powers "
@@ -19,6 +19,10 @@ ASSUMPTIONS = [
     "C01_midloop_expiry_refuted)",
     "block heights grow by one per block on both chains; BeginBlock precedes the transactions of a block",
     "valset update ids start at >= 1 (genesis default)",
+    "a consumer restart (ExportGenesis, then InitGenesis of a fresh keeper with NewChain = false at the same height) is the "
+    "identity on the modelled consumer state; export/import of the other consumer stores (pending consumer packets, "
+    "outstanding downtime flags, last transmission height, parameters) is taken from the code, the slash record is not "
+    "exported; restarts happen between two consumer blocks (no pending changes)",
 ]
 TRUSTED_BASE = [
     "modelled: DiffValidators, the stored-set replacement of ComputeConsumerNextValSet, QueueVSCPackets, "
@@ -30,7 +34,7 @@ TRUSTED_BASE = [
     "the order of updates inside one update list (C18); keys are small integers (table built from common.Key(n))",
 ]
 
-A_PEND, A_STAKE, A_JAIL, A_OPTIN, A_OPTOUT, A_ASSIGN, A_SHAPE, A_OPEN, A_EXPIRE, A_FAULT, A_STOP, A_CBLOCK, A_RELAY, A_FORGE = range(1, 15)
+A_PEND, A_STAKE, A_JAIL, A_OPTIN, A_OPTOUT, A_ASSIGN, A_SHAPE, A_OPEN, A_EXPIRE, A_FAULT, A_STOP, A_CBLOCK, A_RELAY, A_FORGE, A_RESTART = range(1, 16)
 
 
 def gen_case(rng, prop, tier):
@@ -117,6 +121,9 @@ def gen_case(rng, prop, tier):
                 while rng.random() < slash_p and len(a) < 3 + 3 * 4:
                     a += [rng.choice([-1, 0, 0, 1, 1, 2, 3, rng.randint(0, 30)]), rng.choice([-1, rng.randrange(nvals), rng.randrange(nvals)]), rng.choice([1, 1, 2])]
                 acts.append(a)
+                # the consumer chain is restarted from its exported genesis between two of its blocks
+                if b > s["open"] + 1 and rng.random() < (0.07 if c12 else 0.03):
+                    acts.append([A_RESTART, c])
     # drain: everybody receives what is in flight
     for c in range(ncons):
         acts.append([A_CBLOCK, c, -1])
@@ -187,7 +194,7 @@ def describe(codes):
 def histogram(part, c):
     out = ["cons=%d" % len(c["cons"]), "bpe=%d" % c["bpe"]]
     kinds = {a[0] for a in c["acts"]}
-    for k, name in ((A_FAULT, "fault"), (A_EXPIRE, "expire"), (A_STOP, "stop"), (A_FORGE, "forge"), (A_SHAPE, "shape")):
+    for k, name in ((A_FAULT, "fault"), (A_EXPIRE, "expire"), (A_STOP, "stop"), (A_FORGE, "forge"), (A_SHAPE, "shape"), (A_RESTART, "restart")):
         if k in kinds:
             out.append(name)
     return out
